@@ -243,6 +243,29 @@ def corpus(tier, seed):
     return ms
 
 
+def dangle(m, k):
+    """a k-gon on fresh vertices that belongs to no cell"""
+    vs = [m.v(5 + i, -2, 0.5 * i) for i in range(k)]
+    es = [m.e(vs[i], vs[(i + 1) % k]) for i in range(k)]
+    m.f([2 * e for e in es])
+
+
+def typedetect_corpus():
+    """meshes that separate the cases of the automatic topology type detection: the type depends on ALL
+    faces and ALL cells of the mesh and needs at least one cell"""
+    ms = []
+    m = Mesh('td_hex_tri', tcok=True); add_hex(m); dangle(m, 3); ms.append(m)
+    m = Mesh('td_hex_pent', tcok=True); add_hex(m); dangle(m, 5); ms.append(m)
+    m = Mesh('td_hex_quad', tcok=True); add_hex(m); dangle(m, 4); ms.append(m)
+    m = Mesh('td_tet_quad', tcok=True); add_tet(m); dangle(m, 4); ms.append(m)
+    m = Mesh('td_tet_2gon', tcok=True); add_tet(m); dangle(m, 2); ms.append(m)
+    m = Mesh('td_tet_tri', tcok=True); add_tet(m); dangle(m, 3); ms.append(m)
+    m = Mesh('td_hex_tet', tcok=True); add_hex(m); add_tet(m, off=(3.0, 0.0, 0.0)); ms.append(m)
+    m = Mesh('td_quads_nocell', tcok=True); dangle(m, 4); dangle(m, 4); ms.append(m)
+    m = Mesh('td_tris_nocell', tcok=True); dangle(m, 3); ms.append(m)
+    return ms
+
+
 def width_corpus(tier):
     """index-width boundaries per referencing relation: the entity count is still below a boundary while
     the half-entity handles stored one level up are beyond it, and both beyond it; polyhedral and
@@ -357,6 +380,13 @@ def run_gen(mode, corpus_path, work, pairs=False, max_prefix=0, timeout=3600):
             out['done'] = True
     if r.returncode != 0 or not out['done']:
         raise MachineryError('generator failed (exit %d, mode %s):\n%s' % (r.returncode, mode, r.stdout[-3000:]))
+    # TLC wraps long tuples over several lines: failed theorems are collected from the whole output, and the
+    # number of parsed files / edits is cross-checked with the cardinalities the generator printed
+    out['bad'] = [re.sub(r'\s+', ' ', m.group(0)) for m in re.finditer(r'<<\s*"GENBAD".*?>>', r.stdout, re.S)]
+    want = dict(enc=sum(n for _, w, n in out['stat'] if w == 'encodings'), mut=sum(n for _, w, n in out['stat'] if w == 'mutants'))
+    if len(out['enc']) != want['enc'] or len(out['mut']) != want['mut']:
+        raise MachineryError('generator output not understood (mode %s): parsed %d ENC / %d MUT, generator counted %d / %d'
+                             % (mode, len(out['enc']), len(out['mut']), want['enc'], want['mut']))
     return out
 
 
@@ -374,16 +404,17 @@ def run_validate(trace_path, props, work, timeout=3600):
     finally:
         shutil.rmtree(meta, ignore_errors=True)
     bads, classes, done = [], {}, None
-    for line in r.stdout.splitlines():
-        if line.startswith('<<"VXBAD"'):
-            m = re.match(r'<<"VXBAD", (\d+), (-?\d+), "(.*)">>', line)
-            bads.append(dict(line=int(m.group(1)), j=int(m.group(2)), msg=m.group(3)))
-        elif line.startswith('<<"VXC"'):
-            m = re.match(r'<<"VXC", (\d+), (-?\d+), "(.*)">>', line)
-            classes[int(m.group(1))] = m.group(3)
-        elif line.startswith('<<"VXDONE"'):
-            m = re.match(r'<<"VXDONE", (\d+), (\d+), (\d+)>>', line)
-            done = dict(lines=int(m.group(1)), checked=int(m.group(2)), bad=int(m.group(3)))
+    # TLC wraps a tuple that does not fit into 80 columns over several lines: match on the whole output
+    for m in re.finditer(r'<<\s*"VXBAD",\s*(\d+),\s*(-?\d+),\s*"(.*?)"\s*>>', r.stdout, re.S):
+        bads.append(dict(line=int(m.group(1)), j=int(m.group(2)), msg=m.group(3)))
+    for m in re.finditer(r'<<\s*"VXC",\s*(\d+),\s*(-?\d+),\s*"(.*?)"\s*>>', r.stdout, re.S):
+        classes[int(m.group(1))] = m.group(3)
+    m = re.search(r'<<\s*"VXDONE",\s*(\d+),\s*(\d+),\s*(\d+)\s*>>', r.stdout)
+    if m:
+        done = dict(lines=int(m.group(1)), checked=int(m.group(2)), bad=int(m.group(3)))
+    if done is not None and (done['bad'] != len(bads) or done['checked'] != len(classes)):
+        raise MachineryError('validator output not understood on %s: %d VXBAD / %d VXC lines parsed, VXDONE says %d / %d'
+                             % (trace_path, len(bads), len(classes), done['bad'], done['checked']))
     if r.returncode != 0 or done is None:
         raise MachineryError('validator failed (exit %d) on %s:\n%s' % (r.returncode, trace_path, r.stdout[-3000:]))
     return dict(bads=bads, classes=classes, done=done, wall=time.time() - t0)
@@ -549,7 +580,7 @@ def machine_mc(ctx, cov):
     """role M: the chunk-level reader machine with StreamFail"""
     cfg = os.path.join(ctx.work, 'machine.cfg')
     depth = 6 if ctx.tier == "quick" else 7
-    open(cfg, 'w').write('SPECIFICATION Spec\nCONSTANTS\n MaxChunks = %d\nINVARIANT OkOnlyIf\nINVARIANT ErrorIsFinal\nINVARIANT AgreesWithFinish\nCHECK_DEADLOCK FALSE\n' % depth)
+    open(cfg, 'w').write('SPECIFICATION Spec\nCONSTANTS\n MaxChunks = %d\nINVARIANT OkOnlyIf\nINVARIANT ErrorIsFinal\nINVARIANT AgreesWithFinish\nINVARIANT DependencyOrder\nCHECK_DEADLOCK FALSE\n' % depth)
     meta = cfg + '.meta'
     t0 = time.time()
     try:
@@ -595,8 +626,8 @@ def configs_for(tier):
 
 
 def check_c06(ctx, cov):
-    ms = corpus(ctx.tier, ctx.seed) + big_corpus(ctx.tier) + width_corpus(ctx.tier)
-    small = [m for m in ms if not m.name.startswith('soup') and m.nf < 1000]
+    ms = corpus(ctx.tier, ctx.seed) + big_corpus(ctx.tier) + width_corpus(ctx.tier) + typedetect_corpus()
+    small = [m for m in ms if not m.name.startswith('soup') and m.nf < 1000 and (ctx.tier == 'thorough' or not m.name.startswith('td_'))]
     pend = pending_corpus()
     defs = meshdefs_of(ms + pend)
     # (a) writer -> description, for both formats; (d) pending deletions
@@ -725,9 +756,9 @@ def check_faults(ctx, cov, prop):
             if mt_src in ('tet', 'hex'):
                 rot = rot + [(mt_src, 1, 1)]
             cfgs = [rot[nadd[0] % len(rot)]]
-            if prop == 'C18' and kind == 'num':
-                # numeric fields (counts, spans, handles, offsets): without the topology check nothing but the
-                # reader's own range checks stands between a wrong handle and the mesh
+            if prop == 'C18' and (kind == 'num' or kind in CHUNK_KINDS or kind.startswith('ms-')):
+                # numeric fields (counts, spans, handles, offsets) and chunk reorderings: without the topology check
+                # nothing but the reader's own range checks stands between a wrong / premature handle and the mesh
                 cfgs = [('poly', 1, 1), ('poly', 0, 0)]
         else:
             cfgs = [('poly', 1, 1), ('poly', 0, 0)]
@@ -741,6 +772,28 @@ def check_faults(ctx, cov, prop):
         d0 = json.loads(l)
         add(d0['fmt'], base[s0], d0['mt'], 'identity')
     cov['spec_generated_mutants'] = len(g['mut'])
+    if prop == 'C18':
+        # multi-span files: encodings generated from the description with every VERT / TOPO / PROP chunk split into
+        # spans; their chunk-level edits interleave spans out of dependency order (the spec's machine decides)
+        names_ms = ('tet1p', 'mixed') if ctx.tier == 'quick' else ('tet1p', 'mixed', 'hex1', 'tet2', 'ttet')
+        sel = [l for l in src if jmap[json.loads(l)['j']].split()[2] in names_ms]
+        ep = os.path.join(ctx.work, 'corpus-ms.ndjson')
+        open(ep, 'w').write('\n'.join(sel) + '\n')
+        ge = run_gen('enc', ep, ctx.work)
+        msl = []
+        for e in ge['enc']:
+            ch = e['ch']
+            if (ch['vsp'] or ch['esp'] or ch['fsp'] or ch['csp'] or ch['psp'] or ch['propsearly'] or ch['dirlate']) and (ctx.tier == 'thorough' or 1 in (ch['esp'], ch['fsp'], ch['csp'], ch['vsp']) or ch['propsearly'] or ch['dirlate']):
+                d0 = json.loads(sel[e['src'] - 1]); d0['bytes'] = e['bytes']
+                msl.append(json.dumps(d0, separators=(',', ':')))
+        mp = os.path.join(ctx.work, 'corpus-ms-files.ndjson')
+        open(mp, 'w').write('\n'.join(msl) + '\n')
+        gm = run_gen('chunks', mp, ctx.work)
+        for e in gm['mut']:
+            d0 = json.loads(msl[e['src'] - 1])
+            add('ovmb', apply_edit(bytes(d0['bytes']), e), d0['mt'], 'ms-' + e['k'])
+        cov['multi_span_base_files'] = len(msl)
+        cov['multi_span_chunk_edits'] = len(gm['mut'])
     # stream failures: the input stream starts failing at byte k (every k), short reads and throwing buffer
     nsf = 0
     for s, data in base.items():
@@ -894,6 +947,9 @@ def selftest(ctx, cov, lines):
     cov['selftest'] = dict(corrupted_records=len(muts), rejected=len(res['bads']), kinds=sorted({k for k, _ in muts}))
 
 
+CHUNK_KINDS = ('drop', 'dup', 'swap', 'move', 'eofmove')
+
+
 LEVEL = {'C06': 'model_checking', 'C07': 'fault_enumeration', 'C18': 'fault_enumeration'}
 RULE = {
     'C07': 'inputs = for every corpus file written by the library (OVMB and ASCII): every truncation; spec-generated edits from the OVMB field table '
@@ -902,7 +958,7 @@ RULE = {
            'random edits; each read in the listed (mesh type, topology check) configurations under ASan+UBSan with timeout and allocation cap. '
            'distinct_nontrivial = number of distinct (format, mesh type, topology check, bottom-up, stream-failure position and mode, byte string) inputs that are not an unmodified corpus file (measured as a set).',
     'C18': 'inputs = for every corpus OVMB file written by the library: every truncation length, every spec-generated header/chunk-header/sub-header byte '
-           'substitution and numeric-field substitution, chunk drop/dup/swap/EOF-move, input stream failing at every byte k (short read and throwing '
+           'substitution and numeric-field substitution, every chunk dropped / duplicated / swapped / moved to every other position / EOF chunk moved, the same chunk-level edits on spec-generated multi-span encodings (spans interleaved out of dependency order), input stream failing at every byte k (short read and throwing '
            'buffer), output stream failing at every byte k while saving; shipped files truncated around every chunk boundary. The spec (ParseFile) decides '
            'validity of each input. distinct_nontrivial = number of distinct (mesh type, topology check, stream-failure position and mode, byte string) read inputs that are not an unmodified corpus file plus distinct (mesh, failure position, mode) write-failure injections (measured as sets); coverage.spec_verdicts gives how the specification classified them.',
 }
